@@ -31,8 +31,8 @@ type IVal struct {
 	Ref  string // base key of the struct ('p', 't')
 	Tag  string // for unknowns: "len:<key>" = length of an input slice
 	Typ  *types.Basic
-	Dyn  types.Type // dynamic type of an integer held in an interface (named type)
-	Lib  bool       // opaque value made by errors.New / fmt.Errorf
+	Dyn  types.Type   // dynamic type of an integer held in an interface (named type)
+	Lib  bool         // opaque value made by errors.New / fmt.Errorf
 	Lit  *ast.FuncLit // function value: the literal …
 	Env2 []iscope     // … and the static scopes it was created in (innermost first)
 }
@@ -135,9 +135,9 @@ type Interp struct {
 	// is evaluated in line (up to a small depth).
 	NoInline func(cf *Func) bool
 
-	cf     *Func  // function of the current frame
+	cf     *Func    // function of the current frame
 	scopes []iscope // static scopes of the current frame (closures: the literal, then its definers)
-	prefix string // heap key prefix of the current frame
+	prefix string   // heap key prefix of the current frame
 	depth  int
 	exits  *[]frameExit
 	info   *types.Info
